@@ -208,40 +208,39 @@ theorem lines_le_pow_left (r : ℕ) (q : ℚ) (rest : List ℚ) (x : ℚ) (h : i
 
 /-- **Own chord.**  On an increasing knot vector with non-negative first knot, at any `x` between the
     first and the last knot the maximum of all lines is the chord of a segment containing `x`. -/
-theorem linMax_eq_own_chord (r : ℕ) (xs : List ℚ) (x : ℚ) :
-    ∀ p q rest, xs = p :: q :: rest → increasing xs = true → 0 ≤ p → p ≤ x → x ≤ lastD xs 0 →
-      ∃ s ∈ segs xs, 0 ≤ s.1 ∧ s.1 < s.2 ∧ s.1 ≤ x ∧ x ≤ s.2 ∧ linMax (coeffs r xs) x = chord r s.1 s.2 x := by
-  induction xs with
-  | nil => intro p q rest h; cases h
-  | cons p0 tail ih =>
-    intro p q rest hxs hinc hp hpx hxl
-    obtain ⟨rfl, rfl⟩ : p0 = p ∧ tail = q :: rest := by
-      simpa using hxs
+theorem linMax_eq_own_chord (r : ℕ) (x : ℚ) (rest : List ℚ) :
+    ∀ p q, increasing (p :: q :: rest) = true → 0 ≤ p → p ≤ x → x ≤ lastD (p :: q :: rest) 0 →
+      ∃ s ∈ segs (p :: q :: rest), 0 ≤ s.1 ∧ s.1 < s.2 ∧ s.1 ≤ x ∧ x ≤ s.2
+        ∧ linMax (coeffs r (p :: q :: rest)) x = chord r s.1 s.2 x := by
+  induction rest with
+  | nil =>
+    intro p q hinc hp hpx hxl
+    obtain ⟨hpq, _⟩ := increasing_cons hinc
+    refine ⟨(p, q), by simp [segs], hp, hpq, hpx, by simpa [lastD] using hxl, ?_⟩
+    simp [coeffs, linMax, lineAt_chordCoef r p q x (ne_of_lt hpq)]
+  | cons q2 rest' ih =>
+    intro p q hinc hp hpx hxl
     obtain ⟨hpq, hinc'⟩ := increasing_cons hinc
     have hx0 : 0 ≤ x := le_trans hp hpx
-    cases rest with
-    | nil =>
-      refine ⟨(p, q), by simp [segs], hp, hpq, hpx, by simpa [lastD] using hxl, ?_⟩
-      simp [coeffs, linMax, lineAt_chordCoef r p q x (ne_of_lt hpq)]
-    | cons q2 rest' =>
-      have hco : coeffs r (p :: q :: q2 :: rest') = chordCoef r p q :: coeffs r (q :: q2 :: rest') := rfl
-      have hne : coeffs r (q :: q2 :: rest') ≠ [] := by simp [coeffs]
-      obtain ⟨c1, crest, hc1⟩ : ∃ c1 crest, coeffs r (q :: q2 :: rest') = c1 :: crest :=
-        ⟨_, _, rfl⟩
-      by_cases hxq : x ≤ q
-      · refine ⟨(p, q), by simp [segs], hp, hpq, hpx, hxq, ?_⟩
-        rw [hco, hc1, linMax_cons, ← hc1, lineAt_chordCoef r p q x (ne_of_lt hpq)]
-        apply max_eq_left
-        apply linMax_le _ _ _ hne
-        intro l hl
-        exact le_trans (lines_le_pow_left r q (q2 :: rest') x hinc' hx0 hxq l hl)
-          (chord_ge_inside r p q x hp hpq hpx hxq)
-      · have hqx : q ≤ x := le_of_lt (not_le.1 hxq)
-        have hq0 : 0 ≤ q := le_trans hp (le_of_lt hpq)
-        obtain ⟨s, hs, hs0, hs12, hs1x, hxs2, heq⟩ :=
-          ih q q2 rest' rfl hinc' hq0 hqx (by simpa [lastD] using hxl)
-        refine ⟨s, by simp [segs] at hs ⊢; right; exact hs, hs0, hs12, hs1x, hxs2, ?_⟩
-        rw [hco, hc1, linMax_cons, ← hc1, lineAt_chordCoef r p q x (ne_of_lt hpq), heq]
+    have hco : coeffs r (p :: q :: q2 :: rest') = chordCoef r p q :: coeffs r (q :: q2 :: rest') := rfl
+    have hne : coeffs r (q :: q2 :: rest') ≠ [] := by simp [coeffs]
+    have hc1 : coeffs r (q :: q2 :: rest') = chordCoef r q q2 :: coeffs r (q2 :: rest') := rfl
+    by_cases hxq : x ≤ q
+    · refine ⟨(p, q), by simp [segs], hp, hpq, hpx, hxq, ?_⟩
+      rw [hco, hc1, linMax_cons, ← hc1, lineAt_chordCoef r p q x (ne_of_lt hpq)]
+      apply max_eq_left
+      apply linMax_le _ _ _ hne
+      intro l hl
+      exact le_trans (lines_le_pow_left r q (q2 :: rest') x hinc' hx0 hxq l hl)
+        (chord_ge_inside r p q x hp hpq hpx hxq)
+    · have hqx : q ≤ x := le_of_lt (not_le.1 hxq)
+      have hq0 : 0 ≤ q := le_trans hp (le_of_lt hpq)
+      have hxl' : x ≤ lastD (q :: q2 :: rest') 0 := hxl
+      obtain ⟨s, hs, hs0, hs12, hs1x, hxs2, heq⟩ := ih q q2 hinc' hq0 hqx hxl'
+      refine ⟨s, ?_, hs0, hs12, hs1x, hxs2, ?_⟩
+      · show s ∈ (p, q) :: segs (q :: q2 :: rest')
+        exact List.mem_cons_of_mem _ hs
+      · rw [hco, hc1, linMax_cons, ← hc1, lineAt_chordCoef r p q x (ne_of_lt hpq), heq]
         apply max_eq_right
         exact le_trans (chord_le_right r p q x hp hpq hqx)
           (chord_ge_inside r s.1 s.2 x hs0 hs12 hs1x hxs2)
